@@ -729,3 +729,18 @@ Section Sim.
       rewrite Hres. reflexivity.
   Qed.
 End Sim.
+
+Theorem teq_instantiations_labels defs L r :
+  RegistryOf defs L r ->
+  forall d sd, nth_error defs d = Some sd -> teq_program_okb sd = true ->
+  forall args1 args2,
+  instantiation_cf defs sd args1 = true -> map canon args1 = args1 ->
+  instantiation_cf defs sd args2 = true -> map canon args2 = args2 ->
+  forall id1 id2, L id1 = Some (SApp d args1) -> L id2 = Some (SApp d args2) ->
+  types_equal_res r id1 id2 = Ok true.
+Proof.
+  intros HR d sd Hsd Hok args1 args2 Hcf1 Hcan1 Hcf2 Hcan2 id1 id2 Hl1 Hl2.
+  destruct (entry defs L r HR id1 _ Hl1) as (t1 & Hr1 & He1).
+  destruct (entry defs L r HR id2 _ Hl2) as (t2 & Hr2 & He2).
+  exact (teq_instantiations defs L r HR d sd Hsd Hok args1 args2 Hcf1 Hcan1 Hcf2 Hcan2 id1 id2 t1 t2 Hl1 Hl2 He1 He2 Hr1 Hr2).
+Qed.
